@@ -191,6 +191,7 @@ func (c *Compiler) applyAugment(
 	}
 
 	c.assertReferenceStatus(a, applyToNode, parentStatus)
+	c.assertIfFeatureStatus(a, parentStatus)
 
 	for _, ch := range a.Children() {
 		if ch.Type().IsDataNode() || ch.Type().IsOpdDefNode() || ch.Type().IsExtensionNode() {
@@ -528,6 +529,19 @@ func (c *Compiler) assertReferenceStatus(src, dst parse.Node, parentStatus schem
 	}
 }
 
+// assertIfFeatureStatus checks the if-feature statements written on a uses
+// or augment: the reference to the feature is made by that statement, with
+// its status, before the if-feature is handed on to the nodes it brings
+// (which may carry a weaker status of their own).
+func (c *Compiler) assertIfFeatureStatus(n parse.Node, parentStatus schema.Status) {
+	for _, iff := range n.ChildrenByType(parse.NodeIfFeature) {
+		if _, feature := c.getModuleAndReference(
+			iff.Root(), iff, parse.NodeFeature); feature != nil {
+			c.assertReferenceStatus(n, feature, parentStatus)
+		}
+	}
+}
+
 func (c *Compiler) refChecker(
 	src parse.Node, parentStatus schema.Status,
 ) func(parse.Node) {
@@ -684,6 +698,8 @@ func (c *Compiler) applyUsesToNode(mod, nod, use parse.Node, parentStatus schema
 	if st := use.ChildByType(parse.NodeStatus); st != nil {
 		status = parseStatus(st)
 	}
+	c.assertIfFeatureStatus(use, parentStatus)
+
 	// The order in which the augments of a uses are written means nothing:
 	// one whose target is added by another augment of the uses lets an
 	// augment that can be applied go first.
